@@ -28,6 +28,7 @@ type env struct {
 	*enga.Env
 	cliMap   string // generator with map iteration behind the simmap seam
 	mapSites int
+	late     [][2]string // files written after the compile check of the generated sources (path, content)
 }
 
 func prepare() *env {
@@ -486,6 +487,8 @@ func lastLine(s string) string {
 // targets assembles the inputs: seeded adversarial programs, the repository's testdata and examples.
 func (e *env) targets(seed uint64, n int) []*target {
 	var ts []*target
+	e.late = nil
+	late := e.late
 	prof := progen.Profile{Name: "C11", AdversarialNames: true, RiskyShapes: 300, Families: false, MaxProviders: 8}
 	for i := 0; i < n; i++ {
 		r := progen.NewRand(seed, 1100, uint64(i))
@@ -493,10 +496,16 @@ func (e *env) targets(seed uint64, n int) []*target {
 		dir := filepath.Join(e.Mod, "gen", sp.Pkg)
 		_ = os.MkdirAll(dir, 0o755)
 		for name, src := range sp.Files() {
+			if sp.Compose != nil && name == sp.Compose.File {
+				continue // compiles only once the first file has been generated: written after the compile check
+			}
 			_ = os.WriteFile(filepath.Join(dir, name), []byte(src), 0o644)
 		}
 		files := sp.DeclFiles()
-		if !sp.OneInvoke && len(files) > 1 {
+		if sp.Compose != nil {
+			files = []string{"k0.go", sp.Compose.File}
+			late = append(late, [2]string{filepath.Join(dir, sp.Compose.File), sp.Files()[sp.Compose.File]})
+		} else if !sp.OneInvoke && len(files) > 1 {
 			// engine B always passes every declaration file in one invocation or exactly one file
 			if r.Chance(1, 2) {
 				files = files[:1]
@@ -504,6 +513,7 @@ func (e *env) targets(seed uint64, n int) []*target {
 		}
 		ts = append(ts, &target{name: sp.Pkg, src: dir, files: files, origin: "progen", spec: sp, wroot: filepath.Join(e.Mod, "w")})
 	}
+	e.late = late
 	td := filepath.Join(e.Repo, "internal", "kessoku", "testdata")
 	if ents, err := os.ReadDir(td); err == nil {
 		for _, en := range ents {
@@ -576,6 +586,9 @@ func Run(tier string) int {
 	// progen sources must compile on their own
 	if r := drv.Run(e.Mod, 10*time.Minute, nil, "go", "build", "./gen/..."); r.Err != nil {
 		drv.Broken("progen produced packages that do not compile (harness bug):\n%s", r.Out)
+	}
+	for _, f := range e.late {
+		_ = os.WriteFile(f[0], []byte(f[1]), 0o644)
 	}
 	c := &counters{histOps: map[string]int{}, distinctOutputs: map[string]struct{}{}, distinctHistories: map[string]struct{}{}, origins: map[string]int{}}
 	all := make([][]found, len(ts))
